@@ -305,7 +305,7 @@ func c09Seeds() [][]fixscan.Field {
 	return s
 }
 
-var c09Values = []string{"", "-", "0", "-1", "A", "99999999999999999999", "1000000", "Y", "20240101-00:00:00.000"}
+var c09Values = []string{"", "-", "0", "-1", "A", "99999999999999999999", "1000000", "Y", "20240101-00:00:00.000", "9223372036854775807", "-9223372036854775808", "9223372036854775000"}
 
 // fieldMutants: all single mutations of a field list. Each returns a field list (9/10 excluded; framing recomputed
 // by Build) or raw bytes.
@@ -342,7 +342,7 @@ func singleFieldMutations(f []fixscan.Field) []c09Mut {
 			out = append(out, c09Mut{fields: g, desc: fmt.Sprintf("val#%d(%d)=%q", i, f[i].Tag, v)})
 		}
 		// insert data fields after position i
-		for _, n := range []string{"0", "3", "1000000", "-4", ""} {
+		for _, n := range []string{"0", "3", "1000000", "-4", "", "9223372036854775807", "9223372036854775800"} {
 			g = cp()
 			g = append(g[:i+1], append([]fixscan.Field{{212, n}, {213, "<x>"}}, g[i+1:]...)...)
 			out = append(out, c09Mut{fields: g, desc: fmt.Sprintf("xml#%d(%s)", i, n)})
@@ -370,7 +370,7 @@ func rawMutations(b []byte) []c09Mut {
 	i9 := bytes.Index(b, []byte("\x019=")) + 1
 	e9 := i9 + bytes.IndexByte(b[i9:], 1)
 	cur, _ := strconv.Atoi(string(b[i9+2 : e9]))
-	for _, v := range []string{strconv.Itoa(cur + 1), strconv.Itoa(cur - 1), strconv.Itoa(cur + 10), strconv.Itoa(cur - 10), "", "-5", "0", "A", "99999999999999999999", "1000000"} {
+	for _, v := range []string{strconv.Itoa(cur + 1), strconv.Itoa(cur - 1), strconv.Itoa(cur + 10), strconv.Itoa(cur - 10), "", "-5", "0", "A", "99999999999999999999", "1000000", "9223372036854775807", "9223372036854775800", "-9223372036854775808"} {
 		r := append([]byte{}, b[:i9+2]...)
 		r = append(r, v...)
 		r = append(r, b[e9:]...)
@@ -667,6 +667,25 @@ func c09Worker(args []string) int {
 	return 0
 }
 
+// refreshSendingTime rewrites a well-formed 17-byte SendingTime to the current second (a replayed case may be
+// older than MaxLatency, which would change how a session treats it).
+func refreshSendingTime(in []byte) []byte {
+	i := bytes.Index(in, []byte("\x0152="))
+	if i < 0 {
+		return in
+	}
+	j := bytes.IndexByte(in[i+4:], 1)
+	if j != 17 {
+		return in
+	}
+	if _, err := time.Parse("20060102-15:04:05", string(in[i+4:i+4+17])); err != nil {
+		return in
+	}
+	out := append([]byte{}, in...)
+	copy(out[i+4:], fixscan.Stamp(time.Now()))
+	return out
+}
+
 // c09RunCase re-executes one case in-process (replay driver).
 func c09RunCase(cs c09Case) (bool, string, error) {
 	d, err := loadDicts()
@@ -694,7 +713,7 @@ func c09RunCase(cs c09Case) (bool, string, error) {
 		case "session":
 			for i, s := range c09States {
 				if s.name == sk[1] {
-					viol = sinkSession(in, i)
+					viol = sinkSession(refreshSendingTime(in), i)
 				}
 			}
 		case "validate-field":
@@ -722,6 +741,21 @@ func c09RunCase(cs c09Case) (bool, string, error) {
 func init() {
 	register("C09", core.LevelExploration, runC09)
 	workers["c09"] = c09Worker
+	workers["c09desc"] = func(args []string) int {
+		var shard, shards int
+		var idx int64
+		fmt.Sscan(args[0], &shard)
+		fmt.Sscan(args[1], &shards)
+		fmt.Sscan(args[2], &idx)
+		c09ForEach(args[3], shard, shards, idx, func(i int64, sink string, input []byte, aux string, run func(d *c09Dicts) string) {
+			if i == idx {
+				b, _ := json.Marshal(c09Case{Sink: sink, Input: hex.EncodeToString(input), Aux: aux})
+				fmt.Println(string(b))
+				fmt.Println(fixscan.Pretty(input))
+			}
+		})
+		return 0
+	}
 	workers["c09case"] = func(args []string) int {
 		var cs c09Case
 		if len(args) < 1 || json.Unmarshal([]byte(args[0]), &cs) != nil {
